@@ -168,7 +168,11 @@ fn gen_act(dr: &mut Draws, current: Option<&String>, obs_tag: &mut Vec<String>, 
 		return Act::None;
 	}
 	let mismatch = dr.pct(6);
-	let kind = dr.next() % 3;
+	let kind_draw = dr.next();
+	let kind = kind_draw % 3;
+	// an edit that states an old value and leaves it as it is (diff() emits these for unchanged nodes):
+	// it still has to be refused when the stated value is not the target's
+	let noop_edit = kind_draw >= 216;
 	let state = match current {
 		None => "absent_or_unnamed",
 		Some(_) if mismatch => "mismatching",
@@ -184,15 +188,21 @@ fn gen_act(dr: &mut Draws, current: Option<&String>, obs_tag: &mut Vec<String>, 
 		(false, k, true) => {
 			if k == 0 {
 				Act::Remove(old)
+			} else if noop_edit {
+				Act::Edit(old.clone(), old)
 			} else {
 				Act::Edit(old, fresh)
 			}
 		}
 		(true, 0, false) => Act::Remove(old),
+		(true, _, false) if noop_edit => Act::Edit(old.clone(), old),
 		(true, _, false) => Act::Edit(old, fresh),
 		(true, _, true) => Act::Add(fresh),
 	};
 	obs_tag.push(format!("{level}:{}:{state}", act.kind()));
+	if matches!(&act, Act::Edit(a, b) if a == b) {
+		obs_tag.push(format!("noop_edit:{state}"));
+	}
 	act
 }
 
@@ -317,6 +327,9 @@ fn classify(d: &DiffSet, m: &MapSet, ns: usize, tags: &mut Vec<String>) {
 			(_, Some(Some(_))) => "present",
 		};
 		tags.push(format!("{level}:{}:{state}", a.kind()));
+		if matches!(a, Act::Edit(x, y) if x == y) {
+			tags.push(format!("noop_edit:{state}"));
+		}
 	}
 	for (ck, dc) in &d.classes {
 		let c = m.classes.get(ck);
